@@ -32,6 +32,7 @@ from fractions import Fraction
 import core
 import rcorr
 import sabaseslices
+import py2coq_sa
 
 os.environ.setdefault("MPLBACKEND", "Agg")
 os.environ.setdefault("NUMBA_CACHE_DIR", os.path.join(core.VERIF, "build", "numba_cache"))
@@ -41,6 +42,7 @@ THEOREMS = [
     "C20_monotone_transform_invariant", "C20_permutation_equivariant",
     "C20_percentile_least", "C20_percentile_fewest", "C20_percentile_monotone", "C20_scaling",
     "C20_order_check_sound", "C20_binary_search",
+    "C20_reversed_argsort_order", "C20_empty_like_contents_irrelevant",
 ]
 THEOREMS_BASE = [  # Properties/C20Base.v (over R, stdlib real axioms only); each is the conjunction of the clauses about one function
     "C20_contribution_identity",
@@ -54,7 +56,8 @@ TRUSTED = [
     "Model/SourceArea.v is hand-written; tied to utils.get_source_area, the source_area_* base functions and plotting.footprint.extract_percentile_contour (+ _maybe_slice_level) by exact differential execution on dyadic inputs",
     "np.argsort is not modelled: its output enters as data; Coq re-checks on every case that it is a permutation sorting the field non-increasingly (C20_order_check_sound)",
     "np.searchsorted (binary search) is modelled by searchsorted_left_bin and proved equal to the linear specification on cumulative sums of non-negative fields (C20_binary_search); both are compared with the code",
-    "numpy ravel/reshape/fancy indexing/cumsum semantics as mirrored by concat/gather/scatter/cumsum in the model (exercised, not proved)",
+    "array part, tie (B): harness/py2coq_sa.py transliterates the CURRENT bodies of utils.get_source_area, plotting._common._maybe_slice_level and plotting.footprint.extract_percentile_contour statement by statement into the array-program language of Model/SADesc.v (fail closed outside the fragment; alias analysis so that value semantics is faithful); Bridge/SABridge.v re-proves on every run, for ALL arrays / dtype kinds / shapes / any ascending-sorting argsort / any contents of np.empty_like, that the interpreted programs equal Model/SourceArea.get_source_area, slice_level and extract_percentile_contour, and that the parameter lists and defaults are the expected ones",
+    "the MEANING of the numpy primitives is the interpreter of Model/SADesc.v (hand-written, exercised by the exact correspondence, not proved against numpy): an ndarray is dtype kind + shape + C-ordered buffer; ravel()/reshape change the shape only; x[i] cuts the i-th block of the first axis, negative indices wrap; x[order] = gather, x[order] = v / x[lo:hi] = v store with a cast to x's dtype kind (integer truncates) and exact length agreement; np.cumsum = running sums of the raveled buffer in the same dtype kind; np.zeros_like / np.empty_like keep dtype kind and shape (empty_like: arbitrary contents); np.searchsorted(a, v) = side-left linear specification; np.abs, +, -, * elementwise with scalar broadcasting; min / len / float as in Python; dtype WIDTHS (float32/float64), the dtype of scalars and IEEE rounding are not represented",
     "Model/SourceAreaBase.v (base functions over Coq's R, one grid cell at a time) is hand-written; tied to utils.source_area_contribution/circular/upwind/crosswind/sector by (B) five bridge lemmas against the return expressions re-extracted from the current source (harness/sabaseslices.py: straight-line code only, tuple parameters unpacked in order, everything else fails closed) and (A) interval-certified evaluation of the real model at the exact rational value of every input, element by element",
     "np.sqrt = sqrt, np.sin/np.cos = sin/cos, np.abs = Rabs, np.arctan2 = the model's atan2 (Model/KM.v: principal value in (-pi, pi], arctan2(0,0) = 0); libm/numpy are not modelled, their rounding is inside the correspondence tolerance; numpy broadcasting of X against Y is elementwise (shape and every element checked)",
     "the `interval` tactic is used ONLY by the per-element correspondence goals (each closed by Qed); no theorem of Properties/C20Base.v uses a numerical tactic.  For the sector function the goal is first rewritten with the proved closed form -|atan2(cross, dot)| in the quadrant decided by exact rational arithmetic on the case's inputs (side conditions closed by lra)",
@@ -63,6 +66,7 @@ TRUSTED = [
 ASSUMPTIONS = [
     "theorems are over exact rationals: IEEE rounding of cumsum / cell_area products is not covered by any theorem (the correspondence uses inputs on which the float operations are exact)",
     "order/idx is any permutation of the cells sorting the field non-increasingly (hypothesis sorts_desc); no stability or tie-breaking rule of np.argsort is assumed",
+    "bridge lemmas (array part) assume: argsort returns a permutation of the cells that sorts non-decreasingly (argsort_ok; then its reverse satisfies sorts_desc: C20_reversed_argsort_order); f and g have equally many elements and g's shape matches its buffer; for the percentile code the nested arrays are rectangular, the level exists in every array that is cut (level_ok) and the coordinate arrays have the two entries the cell size is read from (grid_ok_x / grid_ok_y) - outside these Python raises IndexError / ValueError and the model is not claimed",
     "f non-negative, p in [0,1], cell area > 0, field non-empty, f and g of equal size (as in the property's quantifier)",
     "base functions: theorems are in exact real arithmetic; IEEE rounding is bounded per evaluated element only: |model - python| <= 1e-12*scale + 1e-60 with scale = (|x-xm|+|y-ym|)^2 for circular and crosswind, |x-xm|+|y-ym| for upwind, 1 (radian) for sector",
     "base functions, degenerate inputs: wind = (0,0) is outside the hypotheses of the upwind/crosswind/sector-angle theorems (0 < u*u+v*v); Python divides by speed = 0.0 there (numpy scalar division: NaN everywhere, RuntimeWarning) and the sector function returns finite values that depend on the signs of the float zeros (arctan2(-0.0,-0.0) = -pi); the observed behaviour is recorded in the evidence (base_degenerate), not judged.  cell = tower in the sector function: numpy's arctan2(0,0) = 0 = the model's atan2 0 0, the value is -|direction angle of the upwind vector| (C20_sector_at_tower), covered by the correspondence",
@@ -828,6 +832,8 @@ def check(ctx):
         ctx.cov["coqchk_base"] = ctx.cov.pop("coqchk")
     if chk_main is not None:
         ctx.cov["coqchk"] = chk_main
+    # array part, tie (B): the three function bodies re-translated from the current source, bridge re-proved
+    py2coq_sa.run(ctx)
     np, U, epc = _impl()
     rs = np.random.default_rng(ctx.rng.getrandbits(64))
     rs_base = np.random.default_rng(ctx.rng.getrandbits(64))   # drawn second: the streams below see the same cases as before
